@@ -77,6 +77,9 @@ def build_extract():
     p = run(["go", "build", "-o", "bin/extract", "."], cwd=EXTRACT, env=goenv())
     if p.returncode != 0:
         return False, p.stdout
+    p = run(["go", "build", "-o", "../bin/goyacc", "."], cwd=os.path.join(EXTRACT, "goyacc"), env=goenv())
+    if p.returncode != 0:
+        return False, p.stdout
     gen = os.path.join(LEAN, "SpecVerif", "Generated")
     os.makedirs(gen, exist_ok=True)
     tmp = os.path.join(gen, "Facts.lean.new")
